@@ -69,6 +69,26 @@ class HeapObj:
         return o
 
 
+class DDView:
+    """buses[key] of a modelled defaultdict-of-records-of-lists (see builtinsm.bi_defaultdict)"""
+
+    def __init__(self, ref, key):
+        self.ref, self.key = ref, key
+
+    def __repr__(self):
+        return f"DDView({self.ref},{self.key})"
+
+
+class DDList:
+    """buses[key][field]: one list of the record; append / membership / iteration act on the map field of the model"""
+
+    def __init__(self, ref, key, field):
+        self.ref, self.key, self.field = ref, key, field
+
+    def __repr__(self):
+        return f"DDList({self.ref},{self.key},{self.field})"
+
+
 class Func:
     def __init__(self, node, module, env, qualname, self_val=None, cls=None):
         self.node, self.module, self.env, self.qualname, self.self_val, self.cls = node, module, env, qualname, self_val, cls
